@@ -287,7 +287,28 @@ def r4_cli_wiring(c, facts):
         c.bad(R, 'with_base-result-dropped', 'the builder returned by with_base is not the one converted by into_openapi')
 
 
+def r6_base_whole(c, facts):
+    """the base document handed to serde is the whole file"""
+    R = c.rule('C14.R6', 'BASE-WHOLE: open_file returns the opened file itself (no length-limiting or filtering reader in between)')
+    of = None
+    for q, l in facts.by_qname.items():
+        if 'DefaultFileSystem' in q and q.endswith('::open_file'):
+            of = l[0]
+    if of is None:
+        c.bad(R, 'anchor-missing:DefaultFileSystem::open_file', 'DefaultFileSystem::open_file not found')
+        return
+    of = facts.normalised(of)
+    idx = MF.defs_index(of)
+    names = {P.strip(n).split('::')[-1] for n, _, _ in MF.slice_back(of, 0, idx)['calls']}
+    limiting = sorted(names & {'take', 'chain', 'bytes', 'split', 'lines', 'by_ref', 'skip', 'filter', 'map', 'read_exact', 'read', 'with_capacity'})
+    if 'open' in names and not limiting:
+        c.ok(R, {'open_file': 'Box::new(File::open(path)?)'})
+    else:
+        c.bad(R, 'open_file:reader-adapted:%s' % ','.join(limiting), 'open_file wraps the file in %s: a large base document is cut short and the sections after the cut are silently dropped' % (limiting or 'something that is not File::open'))
+
+
 def run(c, facts):
+    c.run(r6_base_whole, facts)
     import c13
     c.run(lambda c: c13.r7_option_precedence(c, facts, rule='C14.R5'))
     c.run(r1_frame, facts)
